@@ -668,12 +668,13 @@ class SurrogatesS(Subject):
     def build(self, m):
         from pyunicorn.timeseries import Surrogates
         s = Surrogates(_c(m["x"]), silence_level=3)
+        #  twins() works on the object's current embedding, an input of its
+        #  own that the user sets (here: from the data as given)
+        s.embedding = Surrogates.embed_time_series_array(
+            np.array(m["x"], dtype=float), m.get("dim", 2), m.get("tau", 1),
+            silence_level=3)
         if m["normalized"]:
             s.normalize_original_data()
-        #  twins() works on the object's current embedding: part of the model
-        s.embedding = Surrogates.embed_time_series_array(
-            s.original_data, m.get("dim", 2), m.get("tau", 1),
-            silence_level=3)
         return s
 
     def mutators(self):
